@@ -601,7 +601,12 @@ func (ex *Exec) applyContract(spec *FuncSpec, info calleeInfo, c *ssa.CallCommon
 		}
 	}
 	for _, cl := range ex.pendingBinds {
-		v := ex.evalSpec(cl.Expr, ex.envAt(ex.cur, nil))
+		benv := ex.envAt(ex.cur, nil)
+		benv.vars["result"] = res
+		for i, f := range res.Fs {
+			benv.vars[fmt.Sprintf("result%d", i)] = f
+		}
+		v := ex.evalSpec(cl.Expr, benv)
 		t := ex.V.specType(cl.Type, ex.pkg)
 		v.Ty = t
 		if old, ok := ex.ghosts[cl.Name]; ok && old.T != nil && v.T != nil && ex.pc != True {
